@@ -1,6 +1,6 @@
 /- C43 driver: one utility function per op; `s_…` ops evaluate the Spec side. -/
 import TornadoModel.Base.Wire
-import TornadoModel.C43.Spec
+import TornadoModel.C43.SpecExt
 namespace TornadoModel.C43.Drv
 open TornadoModel TornadoModel.Wire TornadoModel.C43
 
@@ -66,8 +66,9 @@ def one (cmd : String) (a : V) : Option String := do
     | .error e => pure (ok [encErr e])
   | "cookie" => pure (ok [encPairs (parseCookie (← a.cps?))])
   | "hostport" =>
-    let (h, p) := splitHostPort (← a.cps?)
-    pure (ok [.list [V.ofCps h, V.ofOpt V.ofNat p]])
+    match splitHostPort (← a.cps?) with
+    | .ok (h, p) => pure (ok [.list [V.ofCps h, V.ofOpt V.ofNat p]])
+    | .error e => pure (ok [encErr e])
   | "hostport_old" =>
     match splitHostPortOld (← a.cps?) with
     | .ok (h, p) => pure (ok [.list [V.ofCps h, V.ofOpt V.ofNat p]])
@@ -93,7 +94,7 @@ def one (cmd : String) (a : V) : Option String := do
   | "parsedate" => pure (ok [V.ofOpt V.ofNat (parseHttpDate (← a.cps?))])
   | "parseqsl" => pure (ok [encPairs (parseQsl (← a.cps?))])
   | "urlencode" => pure (ok [V.ofCps (urlencode (← decPairs a))])
-  | "s_plainip" => let s ← a.cps?; pure (ok [V.ofBool (Spec.plainIPv4 s), V.ofBool (Spec.plainIPv6 s)])
+  | "s_plainip" => let s ← a.cps?; pure (ok [V.ofBool (Spec.plainIPv4 s), V.ofBool (Spec.plainIPv6 s), V.ofBool (Spec.hostName s)])
   | "emailunquote" => pure (ok [V.ofCps (emailUnquote (← a.cps?))])
   | "utf8dec" => pure (ok [V.ofCps (utf8Dec (← a.byteNats?))])
   | "tables" =>
